@@ -55,10 +55,11 @@ fn object_ext(enc: Enc, subset: u64, rot: usize, link: Option<u32>, first: Optio
         secs.push(Sec::new(b".dynstr", SHT_STRTAB, dynstr.clone()));
     }
     if subset & HASH != 0 {
-        secs.push(Sec::new(b".hash", SHT_HASH, build_sysv(enc.order, &dyn_names, 2)).entsize(4));
+        // the declared entry size of a hash section is not part of its format: it varies with the order
+        secs.push(Sec::new(b".hash", SHT_HASH, build_sysv(enc.order, &dyn_names, 2)).entsize([4, 0, 8, 1, 16][rot % 5]));
     }
     if subset & GNUHASH != 0 {
-        secs.push(Sec::new(b".gnu.hash", SHT_GNU_HASH, g.section.clone()));
+        secs.push(Sec::new(b".gnu.hash", SHT_GNU_HASH, g.section.clone()).entsize([0, 4, 8][rot % 3]));
     }
     if subset & DYNAMIC != 0 {
         secs.push(Sec::new(b".dynamic", SHT_DYNAMIC, dynamic.clone()).entsize(dynsz));
@@ -196,7 +197,7 @@ impl Presence {
 }
 impl Space for Presence {
     fn name(&self) -> String {
-        format!("objects with every subset of {{.symtab, .dynsym, .dynamic, .hash, .gnu.hash, PT_DYNAMIC}} (PT_DYNAMIC only together with .dynamic) x 4 encodings x {} section orders (all rotations of the list and of its reverse): find_common_data vs symbol_table / dynamic_symbol_table / dynamic, hash tables by find() on every name vs ground truth; twin with e_shoff = 0 for the PT_DYNAMIC path", 18)
+        format!("objects with every subset of {{.symtab, .dynsym, .dynamic, .hash, .gnu.hash, PT_DYNAMIC}} (PT_DYNAMIC only together with .dynamic) x 4 encodings x {} section orders (all rotations of the list and of its reverse; the declared sh_entsize of .hash cycles through {{4,0,8,1,16}}, of .gnu.hash through {{0,4,8}}): find_common_data vs symbol_table / dynamic_symbol_table / dynamic, hash tables by find() on every name vs ground truth; twin with e_shoff = 0 for the PT_DYNAMIC path", 18)
     }
     fn size(&self) -> u64 {
         product(&self.dims())
